@@ -24,6 +24,8 @@ CONSTANTS Kinds,        \* subset of {"wm", "wm2", "cl", "ip", "cv"}: families e
           TabX, TabV, TabMax,                    \* ip : nodes from TabX (2..TabMax of them), values from TabV
           CovMaxN, CovDiag, CovOffN, CovShift,   \* cv : diag from CovDiag, off-diagonal from (0..CovOffN) - CovShift
           DefMaxW,                               \* DefsAgree is evaluated for total weight <= DefMaxW
+          MedVariantGE,                          \* FALSE: the loop test of the code (sum > W/2); TRUE: a deviating
+                                                 \* variant (sum >= W/2) used to show that MedRefines can fail
           DoExport
 
 VARIABLES phase, c, st
@@ -55,9 +57,11 @@ ChooseMu ==
 
 MedStart == /\ phase = "wm"
             /\ st' = SMedInit(c.x[1], c.w[1]) /\ phase' = "med" /\ UNCHANGED c
-MedStep  == /\ phase = "med" /\ SMedGoesOn(c.x[1], c.w[1], st)
+MedGoesOn == IF MedVariantGE THEN 2 * st.sum >= SSumW(c.w[1], DOMAIN c.w[1]) /\ st.k < Len(c.x[1])
+             ELSE SMedGoesOn(c.x[1], c.w[1], st)
+MedStep  == /\ phase = "med" /\ MedGoesOn
             /\ st' = SMedStep(c.x[1], c.w[1], st) /\ UNCHANGED <<phase, c>>
-MedDone  == /\ phase = "med" /\ ~SMedGoesOn(c.x[1], c.w[1], st)
+MedDone  == /\ phase = "med" /\ ~MedGoesOn
             /\ phase' = "med_done" /\ UNCHANGED <<c, st>>
 
 \* ---- wmom, N-by-2 ----------------------------------------------------------------------
@@ -169,7 +173,7 @@ ClipShrinks  == [][(phase = "cl" /\ phase' = "cl") =>
 \* on every reachable subset: overflow check)
 ClipStatsDefined == phase = "cl_done" =>
     /\ SClipVar(c, st.S)[1] >= 0
-    /\ \A e \in SClipErr2s(c, st.S) : e[1] >= 0
+    /\ SErr2Calc(c.x, c.w, st.S, SClipMean(c, st.S))[1] >= 0 /\ SErr2Inv(c.w, st.S)[1] = 1
 
 \* interplin: the searchsorted index selection yields an allowed segment at every query;
 \* the property-level definition is single-valued (segments agree at the nodes)
@@ -185,5 +189,6 @@ CovSane == phase = "cv" =>
                           /\ (i = j => SCor2(c.m, i, j) = <<1, 1>>)
 
 \* ---- export -------------------------------------------------------------------------------
-Export == (DoExport /\ phase \in {"wm", "wm2", "cl", "ip", "cv"}) => PrintT(<<"CASE", ToJson(c)>>)
+Export == /\ (DoExport /\ phase \in {"wm", "wm2", "cl", "ip", "cv"}) => PrintT(<<"CASE", ToJson(c)>>)
+          /\ (DoExport /\ phase = "start") => PrintT(<<"OPTS", ToJson([mus |-> MuTable, nsigs |-> NSigTable])>>)
 =============================================================================
